@@ -12,6 +12,7 @@ import CookModel.Lemmas.W7ReauditA
 import CookModel.Lemmas.C02LiftMeta
 import CookModel.Lemmas.LexLaws
 import CookModel.Lemmas.TableFacts
+import CookModel.Lemmas.FinderSpec
 /-
   C02  Core-syntax recipes parse identically under every extension subset.
 
@@ -1223,5 +1224,73 @@ example : let q : List Tok := [⟨.int, ['2'], 0⟩, ⟨.minus, ['-'], 1⟩, ⟨
     (parseQuantity q s).1.quantity.val.unit = none ∧
     (match (parseQuantity q s2).1.quantity.val.value.value.val with | .range _ _ => true | _ => false) = true := by
   decide
+
+-- ===== w8c02finder =====
+
+/-- **What `find_inline_quantity` finds, soundness and completeness.**  On a step text `txt` the finder returns
+    `some h` exactly when `FsFinds env [] txt h`: `h` is the hit of the FIRST candidate, in the candidate sequence
+    of the text, whose number text reads as a number and whose unit word the converter knows (`fsAccept`);
+    candidates before it were refused and skipped whole — the scan resumes after their unit word, so `1 2 g` offers
+    `1 2` only.  The candidate at a position (`fsNextCand`) is a function of the text and the character table alone:
+    first ASCII digit, the white-space-free word there, split at its first character that is neither ASCII digit nor
+    `.`, or — if there is none — the white-space run and the next white-space-free word.
+    Side condition: an ASCII digit is not white space (`DigitsNotWs`, true of `char::is_whitespace`). -/
+theorem C02_finder_finds_first_accepted (env : Env) (hd : DigitsNotWs env.cs) (txt : Str) (h : InlineHit α) :
+    findInlineQuantity (α := α) env (txt.length + 1) [] txt = some h ↔ FsFinds env [] txt h :=
+  fs_find_iff env hd _ [] txt (by omega) h
+
+/-- **… and `none` exactly when no candidate of the sequence is accepted** (`FsNothing`: the sequence ends — no
+    further ASCII digit, or a number word at the very end of the text — with every candidate refused). -/
+theorem C02_finder_none_iff_nothing (env : Env) (hd : DigitsNotWs env.cs) (txt : Str) :
+    findInlineQuantity (α := α) env (txt.length + 1) [] txt = none ↔ FsNothing α env txt :=
+  fs_find_none_iff env hd _ [] txt (by omega)
+
+/-- a hit is unique, and excludes "nothing": `FsFinds` / `FsNothing` are a specification, not a second finder that
+    could disagree with itself -/
+theorem C02_finder_spec_functional (env : Env) (p txt : Str) (h1 h2 : InlineHit α)
+    (a : FsFinds env p txt h1) : (FsFinds env p txt h2 → h1 = h2) ∧ ¬ FsNothing α env txt :=
+  ⟨fun b => fs_finds_unique env p txt h1 h2 a b, fs_finds_not_nothing env p txt h1 a⟩
+
+/-- the premise of the INLINE_QUANTITIES locality theorems, independently of the finder: the step text is not
+    empty and no candidate of its candidate sequence has a readable number and a unit word the converter knows -/
+def C02.NoInlineQuantityPhrase (α : Type) [Arith α] (env : Env) (t : Text) : Prop :=
+  t.text ≠ [] ∧ FsNothing α env t.text
+
+/-- `textCoreX` (defined through the finder) says exactly that -/
+theorem C02_textCoreX_iff (env : Env) (hd : DigitsNotWs env.cs) (t : Text) :
+    textCoreX α env t = true ↔ C02.NoInlineQuantityPhrase α env t := by
+  unfold textCoreX C02.NoInlineQuantityPhrase
+  rw [← C02_finder_none_iff_nothing env hd t.text]
+  cases t.text with
+  | nil => simp
+  | cons x l =>
+    cases findInlineQuantity (α := α) env ((x :: l).length + 1) [] (x :: l) <;> simp
+
+/-- **INLINE_QUANTITIES, locality, with a premise on the text alone**: a step text that is not empty and holds no
+    number-plus-known-unit phrase (`C02.NoInlineQuantityPhrase`) is handled alike under every extension set.
+    (`C02_inline_irrelevant` with its premise replaced by the finder-free one.) -/
+theorem C02_inline_irrelevant_syntactic (env : Env) (hd : DigitsNotWs env.cs) (e : Ext) (t : Text) (items : List Item)
+    (h : C02.NoInlineQuantityPhrase α env t) :
+    inStepTextStep (α := α) (env.withExt e) t items = inStepTextStep env t items :=
+  inStepTextStep_extX env e t items ((C02_textCoreX_iff env hd t).mpr h)
+
+/-- `Add 2 eggs, 3x.` under the converter that knows `g` only: two candidates, `2 eggs,` and `3x.`, both refused -/
+example : C02.NoInlineQuantityPhrase Rat riToyEnv (Text.fromStr "Add 2 eggs, 3x.".toList 0) := by
+  refine ⟨by decide, ?_⟩
+  refine FsNothing.skip _ ⟨"Add ".toList, "2".toList, " ".toList, "eggs,".toList, " 3x.".toList⟩
+    (by decide +kernel) (by decide +kernel) ?_
+  refine FsNothing.skip _ ⟨" ".toList, "3".toList, [], "x.".toList, []⟩ (by decide +kernel) (by decide +kernel) ?_
+  exact FsNothing.done _ (by decide +kernel)
+
+/-- `Add -5 g salt`: the first candidate `5 g` is accepted; the `-` before it leaves `before` and negates.
+    `1 2 g`: the candidate `1 2` is refused and skipped WHOLE, nothing follows: `2 g` is never offered. -/
+example : FsFinds (α := Rat) riToyEnv [] "Add -5 g salt".toList
+      ⟨"Add ".toList, ⟨.number (.regular (-5)), some "g".toList⟩, " salt".toList⟩ ∧
+    FsNothing Rat riToyEnv "1 2 g".toList := by
+  constructor
+  · exact FsFinds.here [] _ ⟨"Add -".toList, "5".toList, " ".toList, "g".toList, " salt".toList⟩ 5
+      (by decide +kernel) (by decide +kernel)
+  · refine FsNothing.skip _ ⟨[], "1".toList, " ".toList, "2".toList, " g".toList⟩ (by decide +kernel) (by decide +kernel) ?_
+    exact FsNothing.done _ (by decide +kernel)
 
 end Cook
